@@ -86,6 +86,25 @@ func init() {
 						}
 					})
 				}, Eval: evalC15},
+			{Name: "byte-sweep", Space: "every byte value except '<' and '=' at each position of the '<'/'='-free vectors of the HTML byte-sweep family, and between a dangerous attribute name and following text", Share: 1,
+				Run: func(w *fw.W) {
+					var items []string
+					for _, s := range alpha.ByteSweepHTML() {
+						if !strings.ContainsAny(s, "<=") {
+							items = append(items, s)
+						}
+					}
+					for b := 0; b < 256; b++ {
+						if b == '<' || b == '=' {
+							continue
+						}
+						c := string([]byte{byte(b)})
+						for _, n := range []string{"onerror", "onload", "style", "href", "xmlns", "src"} {
+							items = append(items, n+" "+c+"javascript:alert(1)", n+c+"javascript:alert(1)", n+" "+c+" x", "x "+n+c, c+n+" javascript:x")
+						}
+					}
+					w.Each(len(items), func(i int) { w.Item(items[i], "") })
+				}, Eval: evalC15},
 			{Name: "corpus-cuts-stripped", Space: "all fixture cuts with '<' and '=' deleted", Share: 1,
 				Run: func(w *fw.W) { w.Each(len(cuts), func(i int) { w.Item(cuts[i], "") }) }, Eval: evalC15},
 		},
